@@ -61,6 +61,12 @@ fn check_state(dag: &DAG<u32, u32>, m: &Model, nodes: &[Node]) -> Result<(), Fai
     }
     if dag.get_node_data(nodes[i]).copied() != (if m.present[i] { Some(i as u32) } else { None }) { fail!("C11", "C11.get_node_data.is_the_data", "node data of {} wrong", i); }
   }
+  // C10 first: the order invariant over the model's edges, before any query whose answer merely depends on it
+  for a in 0..k { for b in 0..k {
+    if m.present[a] && m.present[b] && m.edata[a][b].is_some() {
+      if !(rk[a].unwrap() < rk[b].unwrap()) { fail!("C10", "C10.bounded.every_edge_increases_rank", "edge {}->{} with ranks {} !< {}", a, b, rk[a].unwrap(), rk[b].unwrap()); }
+    }
+  } }
   for a in 0..k {
     // adjacency, in insertion order, with data
     let out: Vec<(usize, u32)> = dag.get_outgoing_edges(nodes[a]).map(|(n, d)| (nodes.iter().position(|x| x == n).unwrap(), *d)).collect();
@@ -217,14 +223,21 @@ fn det_check(ops: &[Op]) -> Result<(), Fail> {
   Ok(())
 }
 
+fn panic_text(e: &Box<dyn std::any::Any + Send>) -> String {
+  e.downcast_ref::<String>().cloned().or_else(|| e.downcast_ref::<&str>().map(|s| s.to_string())).unwrap_or_else(|| "(no message)".to_string())
+}
+
 fn run(ops: &[Op]) -> Result<(), (usize, Fail)> {
   let mut dag: DAG<u32, u32> = DAG::new(); let mut m = Model::default(); let mut nodes = vec![];
   for (i, op) in ops.iter().enumerate() {
     if *op == Op::New { dag = DAG::new(); m = Model::default(); nodes = vec![]; continue; }
     let valid = match *op { Op::AddNode => true, Op::AddEdge(a, b) | Op::RemoveEdge(a, b) => a < nodes.len() && b < nodes.len(), Op::RemoveOut(a) | Op::RemoveNode(a) => a < nodes.len(), Op::New => true };
     if !valid { continue; }
-    apply(&mut dag, &mut m, &mut nodes, *op, 100 + i as u32).map_err(|f| (i, f))?;
-    check_state(&dag, &m, &nodes).map_err(|f| (i, f))?;
+    // a panic of the real crate on an input where the model has an answer is a failure of that operation / query
+    let r = std::panic::catch_unwind(std::panic::AssertUnwindSafe(|| apply(&mut dag, &mut m, &mut nodes, *op, 100 + i as u32)));
+    match r { Ok(x) => x.map_err(|f| (i, f))?, Err(e) => return Err((i, Fail { prop: "C10", ob: "C10.bounded.operation_does_not_panic", what: format!("{:?} panicked: {}", op, panic_text(&e)) })) }
+    let r = std::panic::catch_unwind(std::panic::AssertUnwindSafe(|| check_state(&dag, &m, &nodes)));
+    match r { Ok(x) => x.map_err(|f| (i, f))?, Err(e) => return Err((i, Fail { prop: "C11", ob: "C11.bounded.query_does_not_panic", what: format!("a query after {:?} panicked: {}", op, panic_text(&e)) })) }
   }
   Ok(())
 }
@@ -271,6 +284,7 @@ fn main() {
   let get = |name: &str, d: usize| -> usize { args.iter().position(|a| a == name).map(|i| args[i + 1].parse().unwrap()).unwrap_or(d) };
   let (k, l, random, len, seed) = (get("--k", 3), get("--l", 4), get("--random", 0), get("--len", 12), get("--seed", 1));
   let mut found = 0usize; let mut runs = 0u64; let mut nontrivial = 0u64;
+  let quiet = std::panic::take_hook(); std::panic::set_hook(Box::new(|_| {}));
   // exhaustive: K add_node first, then every sequence of <= L edge/removal operations
   let alphabet = all_ops(k);
   let mut idx = vec![0usize; l];
@@ -286,7 +300,6 @@ fn main() {
   // random: longer sequences with interleaved add_node
   let mut rng = Rng(0x9E3779B97F4A7C15 ^ (seed as u64).wrapping_mul(0xD1342543DE82EF95) | 1);
   let mut earlier: Vec<Op> = vec![];
-  let quiet = std::panic::take_hook(); std::panic::set_hook(Box::new(|_| {}));
   let mut det_found = 0usize;
   for _ in 0..random {
     if found >= 5 && det_found >= 1 { break; }
@@ -317,7 +330,8 @@ fn main() {
 /// `pie-case --violation NAME` one injected-violation case.
 fn pie_main(args: &[String]) {
   use piemodel::*;
-  std::panic::set_hook(Box::new(|_| {}));
+  // harness self-checks (messages starting with `harness:`) stay visible; the panics of the code under test are caught and reported
+  std::panic::set_hook(Box::new(|i| { let m = i.payload().downcast_ref::<String>().cloned().unwrap_or_default(); if m.starts_with("harness:") { eprintln!("{}", m); } }));
   let get = |name: &str, d: usize| -> usize { args.iter().position(|a| a == name).map(|i| args[i + 1].parse().unwrap()).unwrap_or(d) };
   let gets = |name: &str| -> Option<String> { args.iter().position(|a| a == name).map(|i| args[i + 1].clone()) };
   let (programs, hist, seed) = (get("--programs", 500), get("--hist", 8), get("--seed", 1));
@@ -340,6 +354,16 @@ fn pie_main(args: &[String]) {
       if let Err(f) = run_case_attributed(&prog, &h) { emit(&f, format!("pie-case --fixed --index 4000000000 # case {} ({})", k, name), format!("program {:?} history {:?}", prog, h)); found += 1; }
     }
   }
+  if only_index.is_none() || gets("--recovery").is_some() {
+    let mut recovered = 0usize;
+    for (k, (name, prog, h)) in recovery_cases().into_iter().enumerate() {
+      if let Some(v) = gets("--recovery") { if v != k.to_string() { continue; } }
+      if only_violation.is_some() { continue; }
+      ran += 1;
+      match run_recovery(&prog, &h) { Ok(n) => recovered += n, Err(f) => { emit(&f, format!("pie-case --recovery {} --index 4000000000", k), format!("{}: program {:?} history {:?}", name, prog, h)); found += 1; recovered += 1; if found >= 3 { break; } } }
+    }
+    if gets("--recovery").is_none() && only_violation.is_none() && recovered < 200 { panic!("harness: only {} builds after an abort had to succeed", recovered); }
+  }
   if only_index.is_none() || args.iter().any(|a| a == "--session-errors") {
     ran += 1;
     if let Err(f) = session_errors_accumulate() { emit(&f, "pie-case --session-errors --index 4000000000".to_string(), "one session, several builds, a failing checker in the first".to_string()); found += 1; }
@@ -360,7 +384,7 @@ fn pie_main(args: &[String]) {
       if let Err(f) = run_determinism(&prog, &h, 6) { emit(&f, format!("pie-case --determinism {}", n), format!("program {:?} history {:?}", prog, h)); found += 1; break; }
     }
   }
-  if only_violation.is_none() && gets("--determinism").is_none() {
+  if only_violation.is_none() && gets("--determinism").is_none() && gets("--recovery").is_none() {
     let range = match only_index { Some(ix) => ix..ix + 1, None => 0..programs };
     for i in range {
       let mut rng = Rng((0x9E3779B97F4A7C15u64 ^ (seed as u64).wrapping_mul(0xD1342543DE82EF95) ^ (i as u64).wrapping_mul(0xA24BAED4963EE407)) | 1);
